@@ -37,9 +37,9 @@ SPEC = {
     "campaigns": [
         {"name": "no_cred_exhaustive_basic", "run": "^TestNoCredExhaustive$", "quick": B(1, 2, 600, env=_BASIC), "thorough": B(1, 2, 900, env=_BASIC)},
         {"name": "no_cred_exhaustive_logkeeper", "run": "^TestNoCredExhaustive$", "quick": B(1, 1, 600, env=_LOGK), "thorough": B(1, 2, 900, env=_LOGK)},
-        {"name": "route_cred_basic", "run": "^TestRouteCred$", "quick": B(300, 2, 600, env=_BASIC, shrinktime="5s"), "thorough": B(3000, 4, 2400, env=_BASIC, shrinktime="20s")},
-        {"name": "route_cred_logkeeper", "run": "^TestRouteCred$", "quick": B(150, 1, 600, env=_LOGK, shrinktime="5s"), "thorough": B(2000, 1, 2400, env=_LOGK, shrinktime="20s")},
-        {"name": "privilege_matrix", "run": "^TestPrivilegeMatrix$", "quick": B(50, 1, 600, shrinktime="5s"), "thorough": B(800, 1, 2400, shrinktime="20s")},
+        {"name": "route_cred_basic", "run": "^TestRouteCred$", "quick": B(300, 2, 600, env=_BASIC, shrinktime="5s"), "thorough": B(5000, 4, 2400, env=_BASIC, shrinktime="20s")},
+        {"name": "route_cred_logkeeper", "run": "^TestRouteCred$", "quick": B(150, 1, 600, env=_LOGK, shrinktime="5s"), "thorough": B(3500, 1, 2400, env=_LOGK, shrinktime="20s")},
+        {"name": "privilege_matrix", "run": "^TestPrivilegeMatrix$", "quick": B(50, 1, 600, shrinktime="5s"), "thorough": B(1300, 1, 2400, shrinktime="20s")},
     ],
 }
 
